@@ -9,6 +9,7 @@ import (
 	"sort"
 	"strings"
 
+	"github.com/lindb/lindb/internal/verifhook"
 	"github.com/lindb/lindb/sql"
 	"github.com/lindb/lindb/sql/stmt"
 
@@ -31,6 +32,22 @@ func (area) Run(c *core.Ctx) error {
 		}
 		c.Begin(i)
 		r := c.Rng(i)
+		runOneCase(c, r, i)
+	}
+	return nil
+}
+
+// runOneCase dispatches case i. A panic that escapes every per-op guard (harness bookkeeping after a
+// mutated implementation left an unexpected state) is a failure of THIS case (key "panic"), never the
+// end of the run.
+func runOneCase(c *core.Ctx, r *rand.Rand, i int) {
+	defer func() {
+		if rec := recover(); rec != nil {
+			verifhook.Set(nil)
+			c.Fail("panic", fmt.Sprintf("case %d: harness-level panic: %v", i, rec))
+		}
+	}()
+	{
 		switch {
 		case i == 0:
 			witnessLikeStar(c)
@@ -62,7 +79,6 @@ func (area) Run(c *core.Ctx) error {
 			dbCase(c, r)
 		}
 	}
-	return nil
 }
 
 // ---------------------------------------------------------------- protocol helpers
@@ -829,6 +845,11 @@ func quote(s string) string {
 var valuePool = []string{
 	"a", "ab", "abc", "abcd", "b", "bc", "xabc", "abx", "a,b", "~^b", "^b", "é", "éa", "aé", "日本", "日本語", "本",
 	"a*", "*", "a b", "A", "Ab", "10", "192.168.1.1", "192.168.1.10", "192.168.2.1", "host-1", "host-10", "host-2", "z",
+	// round 10: quote characters and backslashes. lindb's grammar has NO escape sequences in quoted
+	// literals ('...' / "..." are `.*?` up to the next quote of the same kind; the escape fragment is
+	// commented out), so `a\b`, `a\` and `\n` (two characters) are taken verbatim; a value with a double
+	// quote is written in single quotes; a value with a single quote can only be sent as a tree (sqlOf).
+	`a\b`, `a\`, `\n`, "it's", `q"d`, `\'`, `'"`,
 }
 var keyPool = []string{"host", "zone", "ip", "région", "k"}
 
@@ -997,10 +1018,13 @@ func (g *cgen) repeated() stmt.Expr {
 // sqlOf renders a grammar-shaped tree as SQL text (ok=false when some literal cannot be quoted).
 func sqlOf(e stmt.Expr) (string, bool) {
 	q := func(s string) (string, bool) {
-		if strings.Contains(s, "'") && strings.Contains(s, `"`) || strings.Contains(s, `\`) && strings.Contains(s, `"`) {
+		// a literal containing a single quote cannot be written: "..." lexes as the STRING token (defined
+		// before L_ID, same length), which the tag filter rules do not accept, and '...' ends at the first
+		// single quote (no escape sequences). Such conditions are sent as trees only.
+		if strings.Contains(s, "'") {
 			return "", false
 		}
-		return quote(s), true
+		return "'" + s + "'", true
 	}
 	atom := func(a stmt.TagFilter, neg bool) (string, bool) {
 		k, ok := q(a.TagKey())
@@ -1298,6 +1322,14 @@ func genQuery(c *core.Ctx, r *rand.Rand, metrics, keys []string, defects bool) (
 			if err != nil {
 				c.Fail("sql-parse", err.Error())
 				return probeQuery{}, false
+			}
+			if parsed.Rewrite() == cond.Rewrite() {
+				c.Branch("sql/literals-verbatim")
+			} else {
+				c.Branch("sql/parsed-tree-differs")
+			}
+			if strings.ContainsAny(text, `\`) {
+				c.Branch("sql/literal-with-backslash")
 			}
 			cond, how = parsed, "sql"
 			if len(gb) > 0 {
